@@ -1,12 +1,284 @@
-//! C04 - not built yet.
-use crate::run::Ctx;
-use serde_json::Value;
+//! C04 - PlainDate add/subtract/until/since follow Temporal date arithmetic exactly.
 
-pub fn run(_ctx: &mut Ctx) {
-    eprintln!("property C04 has no check yet");
-    std::process::exit(2);
+use crate::chk;
+use crate::conv::*;
+use crate::gen;
+use crate::refm::civil::*;
+use crate::refm::dateadd::*;
+use crate::refm::dur::{Dur, U};
+use crate::refm::round::Mode;
+use crate::run::*;
+use proptest::prelude::*;
+use serde::{Deserialize, Serialize};
+use serde_json::Value;
+use temporal_rs::error::ErrorKind;
+
+// ------------------------------------------------------------------------------------------
+// add / subtract
+
+#[derive(Serialize, Deserialize, Debug, Clone)]
+pub struct AddCase {
+    pub day: i64,
+    pub dur: Dur,
+    pub reject: bool,
+    pub subtract: bool,
+}
+pub struct AddSub;
+
+impl SubCheck for AddSub {
+    type Case = AddCase;
+    fn name(&self) -> &'static str {
+        "add"
+    }
+    fn eval(&self, c: &AddCase) -> Outcome {
+        let a = Ymd::from_n(c.day);
+        let ov = if c.reject { Overflow::Reject } else { Overflow::Constrain };
+        // the duration that is effectively added
+        let eff = if c.subtract { c.dur.negated() } else { c.dur };
+        let time_days = eff.time_ns() / NS_PER_DAY; // sign-uniform input: trunc is unambiguous
+        let want = date_add(a, eff.f[0], eff.f[1], eff.f[2], eff.f[3] + time_days, ov);
+        let mut o = Outcome::pass();
+        let month_end = a.d >= 29;
+        let has_ym = eff.f[0] != 0 || eff.f[1] != 0;
+        let near_limit = match want {
+            Ok(r) => r.n() < MIN_DAY + 31 || r.n() > MAX_DAY - 31,
+            Err(_) => true,
+        };
+        o = o.nontrivial((month_end && has_ym) || near_limit || (a.m == 2 && a.d == 29) || eff.time_ns() != 0);
+        if month_end && has_ym {
+            o = o.class("month-end+ym");
+        }
+        if near_limit {
+            o = o.class("near-limit-or-out");
+        }
+        if eff.time_ns() != 0 {
+            o = o.class("time-units");
+        }
+        if c.reject {
+            o = o.class("reject");
+        }
+        if eff.f.iter().any(|v| v.abs() >= (1 << 31)) {
+            o = o.class("field>=2^31");
+        }
+        let pd = plain_date(a).expect("valid date");
+        let d = match duration_from_dur(&c.dur) {
+            Ok(d) => d,
+            Err(e) => return o.fail("C04/add/duration-construct", "valid duration", err_str(&e)),
+        };
+        let got = if c.subtract { pd.subtract(&d, Some(overflow(ov))) } else { pd.add(&d, Some(overflow(ov))) };
+        match (want, got) {
+            (Ok(w), Ok(g)) => chk!(o, ymd_of(&g) == w, "C04/add/mismatch", w, ymd_of(&g)),
+            (Err(_), Err(e)) => chk!(o, e.kind() == ErrorKind::Range, "C04/add/error-kind", "Range", err_str(&e)),
+            (Ok(w), Err(e)) => o = o.fail("C04/add/unexpected-error", format!("{w:?}"), err_str(&e)),
+            (Err(_), Ok(g)) => o = o.fail("C04/add/accepted", "RangeError", format!("{:?}", ymd_of(&g))),
+        }
+        o
+    }
 }
 
-pub fn replay(_ctx: &mut Ctx, _sub: &str, _case: &Value) -> bool {
-    false
+// ------------------------------------------------------------------------------------------
+// until / since + laws
+
+#[derive(Serialize, Deserialize, Debug, Clone)]
+pub struct DiffCase {
+    pub a: i64,
+    pub b: i64,
+    pub largest: U,
+}
+pub struct DiffSub;
+
+impl SubCheck for DiffSub {
+    type Case = DiffCase;
+    fn name(&self) -> &'static str {
+        "until"
+    }
+    fn eval(&self, c: &DiffCase) -> Outcome {
+        let (a, b) = (Ymd::from_n(c.a), Ymd::from_n(c.b));
+        let (y, mo, w, d) = date_diff(a, b, c.largest);
+        let mut o = Outcome::pass();
+        let crosses_zero = (a.y <= 0) != (b.y <= 0);
+        let near_limit = c.a < MIN_DAY + 31 || c.b < MIN_DAY + 31 || c.a > MAX_DAY - 31 || c.b > MAX_DAY - 31;
+        // sign of raw component differences differ before balancing
+        let raw = [(b.y - a.y).signum(), (b.m as i64 - a.m as i64).signum(), (b.d as i64 - a.d as i64).signum()];
+        let mixed = raw.iter().any(|s| *s > 0) && raw.iter().any(|s| *s < 0);
+        o = o.nontrivial(a.d >= 29 || (a.m == 2 && a.d == 29) || (b.m == 2 && b.d == 29) || mixed || crosses_zero || near_limit);
+        if a.d >= 29 {
+            o = o.class("start-day>=29");
+        }
+        if mixed {
+            o = o.class("mixed-component-signs");
+        }
+        if crosses_zero {
+            o = o.class("crosses-year-0");
+        }
+        if near_limit {
+            o = o.class("near-limit");
+        }
+        if c.b < c.a {
+            o = o.class("negative");
+        }
+        let (pa, pb) = (plain_date(a).expect("valid"), plain_date(b).expect("valid"));
+        let st = diff_settings(Some(unit(c.largest)), None, None, None);
+        let want = [y as f64, mo as f64, w as f64, d as f64, 0., 0., 0., 0., 0., 0.];
+        let until = match pa.until(&pb, st) {
+            Ok(u) => u,
+            Err(e) => return o.fail("C04/until/error", format!("{want:?}"), err_str(&e)),
+        };
+        let got = duration_fields(&until);
+        chk!(o, fields_eq(&got, &want), "C04/until/mismatch", want, got);
+        // model-independent laws
+        let s = (c.b - c.a).signum() as f64;
+        chk!(o, got.iter().all(|v| *v == 0.0 || v.signum() == s), "C04/until/not-sign-uniform", s, got);
+        match c.largest {
+            U::Year => chk!(o, got[1].abs() < 12.0 && got[2] == 0.0 && got[3].abs() <= 31.0, "C04/until/unbalanced", "months<12, days<=31", got),
+            U::Month => chk!(o, got[0] == 0.0 && got[2] == 0.0 && got[3].abs() <= 31.0, "C04/until/unbalanced", "no years/weeks, days<=31", got),
+            U::Week => chk!(o, got[0] == 0.0 && got[1] == 0.0 && got[3].abs() < 7.0, "C04/until/unbalanced", "only weeks, days<7", got),
+            _ => chk!(o, got[0] == 0.0 && got[1] == 0.0 && got[2] == 0.0 && got[3] == (c.b - c.a) as f64, "C04/until/day-distance", c.b - c.a, got),
+        }
+        // a.add(a.until(b)) == b
+        match pa.add(&until, None) {
+            Ok(r) => chk!(o, r == pb, "C04/law/add-until", b, ymd_of(&r)),
+            Err(e) => o = o.fail("C04/law/add-until/error", format!("{b:?}"), err_str(&e)),
+        }
+        // since is the negation
+        match pa.since(&pb, st) {
+            Ok(si) => {
+                let neg = duration_fields(&until.negated());
+                let gs = duration_fields(&si);
+                chk!(o, fields_eq(&gs, &neg), "C04/law/since-negated", neg, gs);
+            }
+            Err(e) => o = o.fail("C04/law/since/error", "Ok", err_str(&e)),
+        }
+        // b.subtract(until) == b.add(-until)
+        match (pb.subtract(&until, None), pb.add(&until.negated(), None)) {
+            (Ok(x), Ok(y)) => chk!(o, x == y, "C04/law/subtract-is-add-negated", ymd_of(&y), ymd_of(&x)),
+            (Err(x), Err(y)) => chk!(o, x.kind() == y.kind(), "C04/law/subtract-is-add-negated/kinds", kind_name(y.kind()), kind_name(x.kind())),
+            (x, y) => o = o.fail("C04/law/subtract-is-add-negated/verdict", format!("{:?}", y.map(|p| ymd_of(&p)).map_err(|e| err_str(&e))), format!("{:?}", x.map(|p| ymd_of(&p)).map_err(|e| err_str(&e)))),
+        }
+        o
+    }
+}
+
+// ------------------------------------------------------------------------------------------
+// since with a rounding mode == negated until with the mirrored mode (metamorphic, no model)
+
+#[derive(Serialize, Deserialize, Debug, Clone)]
+pub struct MirrorCase {
+    pub a: i64,
+    pub b: i64,
+    pub largest: U,
+    pub smallest: U,
+    pub inc: u32,
+    pub mode: Mode,
+}
+pub struct MirrorSub;
+impl SubCheck for MirrorSub {
+    type Case = MirrorCase;
+    fn name(&self) -> &'static str {
+        "since-mirror"
+    }
+    fn eval(&self, c: &MirrorCase) -> Outcome {
+        let (pa, pb) = (plain_date(Ymd::from_n(c.a)).unwrap(), plain_date(Ymd::from_n(c.b)).unwrap());
+        let mut o = Outcome::pass().nontrivial(c.a != c.b && c.mode.negated() != c.mode).class(if c.mode.negated() != c.mode { "directed-mode" } else { "symmetric-mode" });
+        let s1 = diff_settings(Some(unit(c.largest)), Some(unit(c.smallest)), Some(c.inc), Some(mode(c.mode)));
+        let s2 = diff_settings(Some(unit(c.largest)), Some(unit(c.smallest)), Some(c.inc), Some(mode(c.mode.negated())));
+        match (pa.since(&pb, s1), pa.until(&pb, s2)) {
+            (Ok(s), Ok(u)) => {
+                let (gs, gu) = (duration_fields(&s), duration_fields(&u.negated()));
+                chk!(o, fields_eq(&gs, &gu), "C04/law/since-mirrored-mode", gu, gs);
+            }
+            (Err(x), Err(y)) => chk!(o, x.kind() == y.kind(), "C04/law/since-mirrored-mode/kinds", kind_name(y.kind()), kind_name(x.kind())),
+            (x, y) => o = o.fail("C04/law/since-mirrored-mode/verdict", format!("{:?}", y.map(|d| duration_fields(&d)).map_err(|e| err_str(&e))), format!("{:?}", x.map(|d| duration_fields(&d)).map_err(|e| err_str(&e)))),
+        }
+        o
+    }
+}
+
+// ------------------------------------------------------------------------------------------
+// generators
+
+fn field(max: i128) -> BoxedStrategy<i128> {
+    prop_oneof![
+        5 => Just(0i128),
+        4 => 0i128..=3,
+        3 => 0i128..=40,
+        2 => 0i128..=max,
+        1 => (-3i128..=3).prop_map(|k| (1i128 << 31) + k),
+        1 => (0i128..=3).prop_map(|k| (1i128 << 32) - 1 - k),
+    ]
+    .boxed()
+}
+
+fn date_dur() -> BoxedStrategy<Dur> {
+    (
+        prop::bool::ANY,
+        field(560_000),
+        field(560_000 * 12),
+        field(560_000 * 53),
+        field(210_000_000),
+        prop_oneof![6 => Just(0i128), 2 => 0i128..=100, 1 => 0i128..=5_000_000_000i128],
+        prop_oneof![8 => Just(0i128), 1 => 0i128..=3000, 1 => 0i128..=300_000_000_000i128],
+        prop_oneof![8 => Just(0i128), 1 => 0i128..=200_000],
+        prop_oneof![8 => Just(0i128), 1 => (0i128..=3, 0i128..=2).prop_map(|(k, d)| (k * NS_PER_DAY + d * (NS_PER_DAY - 1)).max(0))],
+    )
+        .prop_map(|(neg, y, mo, w, d, h, mi, s, ns)| {
+            let mut f = [y, mo, w, d, h, mi, s, 0, 0, gen::through_f64(ns)];
+            if neg {
+                for x in f.iter_mut() {
+                    *x = -*x;
+                }
+            }
+            Dur { f }
+        })
+        .prop_filter("valid", |d| d.valid())
+        .boxed()
+}
+
+fn add_case() -> BoxedStrategy<AddCase> {
+    (gen::day(), date_dur(), prop::bool::ANY, prop::bool::weighted(0.3)).prop_map(|(day, dur, reject, subtract)| AddCase { day, dur, reject, subtract }).boxed()
+}
+fn diff_case() -> BoxedStrategy<DiffCase> {
+    (gen::day_pair(), gen::unit_in(0, 3)).prop_map(|((a, b), largest)| DiffCase { a, b, largest }).boxed()
+}
+fn mirror_case() -> BoxedStrategy<MirrorCase> {
+    (gen::day_pair(), gen::unit_in(0, 3), gen::unit_in(0, 3), proptest::sample::select(vec![1u32, 2, 3, 5, 7, 10]), gen::mode())
+        .prop_map(|((a, b), u1, u2, inc, mode)| {
+            let (largest, smallest) = if u1.idx() <= u2.idx() { (u1, u2) } else { (u2, u1) };
+            MirrorCase { a, b, largest, smallest, inc, mode }
+        })
+        .boxed()
+}
+
+pub fn run(ctx: &mut Ctx) {
+    ctx.rule = "add: generated (date, valid duration over all ten fields incl. 2^31+-k and 2^32-1 magnitudes, overflow, add|subtract) against AddISODate in unbounded integers (value or RangeError); until: generated pairs (boundary-biased: month ends, leap days, negative years, spans up to 5.4e5 years) x largestUnit in {year, month, week, day} against DifferenceISODate, plus model-free laws (sign-uniform, balanced, a.add(a.until(b))==b, since==-until, subtract==add(-d)); since-mirror: since(mode) == -until(negated mode) with smallestUnit/increment; thorough adds an exhaustive block of all pairs of days in 1999-12-01..2001-03-31 x 4 units. non-trivial = start day >= 29, Feb 29 involved, mixed signs of raw component differences, span crosses year 0, result within a month of a limit, or time units present.".into();
+    let t = ctx.tier;
+    ctx.run_prop(&AddSub, &add_case, t.pick(1_000_000, 30_000_000));
+    ctx.run_prop(&DiffSub, &diff_case, t.pick(1_000_000, 30_000_000));
+    ctx.run_prop(&MirrorSub, &mirror_case, t.pick(300_000, 6_000_000));
+    // exhaustive block
+    let lo = to_days(1999, 12, 1);
+    let hi = to_days(2001, 3, 31);
+    let n = (hi - lo + 1) as u64;
+    let stride = t.pick(7, 1); // quick: every 7th start day (still every end day)
+    let starts: Vec<i64> = (lo..=hi).step_by(stride as usize).collect();
+    let total = starts.len() as u64 * n * 4;
+    ctx.run_enum(
+        &DiffSub,
+        total,
+        &|i| {
+            let u = [U::Year, U::Month, U::Week, U::Day][(i % 4) as usize];
+            let j = i / 4;
+            DiffCase { a: starts[(j / n) as usize], b: lo + (j % n) as i64, largest: u }
+        },
+        stride == 1,
+    );
+}
+
+pub fn replay(ctx: &mut Ctx, sub: &str, case: &Value) -> bool {
+    match sub {
+        "add" => ctx.replay_case(&AddSub, case),
+        "until" => ctx.replay_case(&DiffSub, case),
+        "since-mirror" => ctx.replay_case(&MirrorSub, case),
+        _ => false,
+    }
 }
